@@ -373,6 +373,11 @@ FAMILIES = {
     'len.string-escapes-src': (lambda k: '@font-face{font-family:x;src:url("' + '\\(' * k + '") format("' + '\\"' * k + '") 1}', 60),
     'len.ident-escapes-font': (lambda k: 'a{font-family:' + 'a\\ ' * k + 'b 12px !x;y:1}', 60),
     'len.string-escapes-url': (lambda k: 'a{background-image:url("' + '\\)' * k + '") 1 1 1;y:1}', 60),
+    # unterminated strings / urls full of hex escapes, each followed by the white space that may end it
+    'len.open-string-hex-escapes': (lambda k: 'a{content:"' + '\\41 ' * k, 100),
+    'len.open-string-hex-escapes-tab': (lambda k: "a{content:'" + '\\e9\t\\a ' * k, 100),
+    'len.open-url-hex-escapes': (lambda k: 'a{background:url(' + '\\41 ' * k, 100),
+    'len.ident-hex-escapes-invalid': (lambda k: 'a' + '\\41 ' * k + '{x:y} b' + '\\62 ' * k + '$', 100),
     'len.backslashes': (lambda k: 'a{x:' + '\\\\' * k + '}', 100),
     'len.backslash-newlines': (lambda k: 'a{x:"' + '\\\n' * k + '"}', 100),
     'len.dashes': (lambda k: 'a{x:' + '-' * (k * 5) + 'b}', 100),
